@@ -191,7 +191,7 @@ PROPS = {
     'C10': dict(
         rules=[r_init.s12_validate_dominates_init,
                lambda ctx: r_absint.a01_constructors(ctx, groups=('method-new', 'ma-init', 'config-init', 'config-validate', 'config-set', 'parser'), min_entries=165),
-               r_absint.a01c_too_small, r_winv.a04_window_invariant, r_absint.a02_next_with_facts, r_counters.s08b_bounded_panicking_counters],
+               r_absint.a01c_too_small, r_winv.a04_window_invariant, r_winv.a06_index_methods, r_absint.a02_next_with_facts, r_counters.s08b_bounded_panicking_counters],
         feature_sets=_sets(['default'], ['default', 'u16', 'ci', 'unsafe']),
         rules_thorough=[lambda ctx: r_absint.a01_constructors(ctx, groups=('method-new', 'ma-init', 'config-init', 'config-validate', 'config-set', 'parser'), fs='u16', rule_id='A01@u16', min_entries=165), on_build(r_init.s12_validate_dominates_init, 'ci'),
                         on_build(r_absint.a02_next_with_facts, 'u16'), on_build(r_absint.a02_next_with_facts, 'unsafe')],
@@ -204,10 +204,10 @@ PROPS = {
                      'pinned to a value its doc comment calls too small the abstract return is exactly {Err}. (A02) next() is interpreted '
                      'from the joined Ok-state of init()/new() with all non-invariant fields forgotten and every Window re-normalised to the '
                      'representation invariant that (A04) proves inductive: no empty-window push, no ring-buffer bounds or overflow check, no '
-                     'window index out of range and no overflow in pure configuration arithmetic is reachable. (S08b) narrow state counters incremented with '
+                     'window index out of range and no overflow in pure configuration arithmetic is reachable; the inputs of next() are finite floats, as the property states. (A06) the age of HighestIndex / LowestIndex is < their window length (inductive), which also decides `period - age` in Aroon. (S08b) narrow state counters incremented with '
                      'overflow-checked arithmetic in next() are clamped by a comparison-guarded reset (else a long stream panics).'),
         not_decided=['panics in next() that depend on stream values or accumulated state (listed in the evidence under '
-                     'next_panic_sites_not_decided: age / position counters of individual methods, SMM slice indices, float assertions on inputs): '
+                     'next_panic_sites_not_decided: SMM slice indices (recursive search through fn pointers), a few wide position counters, float assertions on derived values): '
                      'they need per-method loop or float invariants and are not decided',
                      'allocation failure and stack overflow are outside the property'],
         assumptions=TRUST,
@@ -285,7 +285,7 @@ PROPS = {
     ),
     'C04': dict(
         rules=[lambda ctx: r_mirror.s04_mirror_siblings(ctx, which=('highest_lowest::Highest', 'highest_lowest_index::HighestIndex')),
-               r_mirror.s05_mixed_float_equivalence, r_mirror.s04b_full_window_scans,
+               r_mirror.s05_mixed_float_equivalence, r_mirror.s04b_full_window_scans, r_winv.a06_index_methods,
                lambda ctx: r_step.s07_step_once(ctx, only_types=('Highest', 'Lowest', 'HighestLowestDelta', 'HighestIndex', 'LowestIndex', 'SMM', 'MedianAbsDev'), rule_id='S07s')],
         feature_sets=_sets(['default']),
         explanation=('(S04) Lowest / LowestIndex are the HIR mirror image of Highest / HighestIndex (new, next, peek) under the swap >=/<=, '
@@ -293,7 +293,8 @@ PROPS = {
                      'to_bits() equality site is enumerated; a function that compares the same pair of floats by bits and by numeric order '
                      'while steering a search (recursion / fn pointer / loop) is reported: the relations disagree on signed zeros. (S07s) on every '
                      'normally returning path of next() the selection methods push the new value into their window exactly once and step each owned sub-method exactly once. '
-                     '(S04b) their rescans iterate over the complete window: no skipping, truncating or filtering adaptor.'),
+                     '(S04b) their rescans iterate over the complete window: no skipping, truncating or filtering adaptor. (A06) the age HighestIndex / LowestIndex keep and return is < the window length on every step '
+                     '(inductive invariant: established by new(), preserved by next() including the enumerate().fold() rescan, whose closure is iterated to an abstract fixpoint).'),
         not_decided=['that the max-side algorithms (cached extremum + rescan trigger, age counter, sorted-slice shifting) compute the maximum, '
                      'its age and the median for every order pattern: behaviour over all streams, not decided',
                      'the two halves of HighestLowestDelta::next are not compared'],
